@@ -260,6 +260,9 @@ const preludeBase = `(declare-sort pv_Str 0)
 (assert (forall ((s pv_Str) (i Int) (j Int) (k Int)) (! (=> (and (<= 0 i) (<= i j) (<= j (pv_len s)) (<= 0 k) (< k (- j i))) (= (pv_at (pv_sub s i j) k) (pv_at s (+ i k)))) :pattern ((pv_at (pv_sub s i j) k)))))
 (assert (forall ((a pv_Str) (b pv_Str)) (! (= (pv_len (pv_cat a b)) (+ (pv_len a) (pv_len b))) :pattern ((pv_cat a b)))))
 (assert (forall ((a pv_Str) (b pv_Str) (k Int)) (! (= (pv_at (pv_cat a b) k) (ite (< k (pv_len a)) (pv_at a k) (pv_at b (- k (pv_len a))))) :pattern ((pv_at (pv_cat a b) k)))))
+(assert (forall ((a pv_Str)) (! (= (pv_cat a pv_empty) a) :pattern ((pv_cat a pv_empty)))))
+(assert (forall ((a pv_Str)) (! (= (pv_cat pv_empty a) a) :pattern ((pv_cat pv_empty a)))))
+(assert (forall ((a pv_Str) (b pv_Str) (c pv_Str)) (! (= (pv_cat (pv_cat a b) c) (pv_cat a (pv_cat b c))) :pattern ((pv_cat (pv_cat a b) c)))))
 (assert (forall ((c Int)) (! (and (= (pv_len (pv_chr c)) 1) (=> (and (<= 0 c) (<= c 255)) (= (pv_at (pv_chr c) 0) c))) :pattern ((pv_chr c)))))
 (assert (forall ((s pv_Str)) (! (= (pv_unboxstr (pv_boxstr s)) s) :pattern ((pv_boxstr s)))))
 `
